@@ -22,7 +22,8 @@ What is checked for one case = (model, interface)                               
  e. reduced_costs[r] == c_r - sum_m S_mr * shadow_prices[m] (the statement's formula, on the reported shadow prices).
     If the reported value is exactly twice that: key 'reduced-cost-factor' (DESIGN section 9 #10), anything else:
     'reduced-cost-mismatch'.
- f. accessors right after optimize(): r.flux, r.reduced_cost, met.shadow_price == the Solution's entries   [accessor-*]
+ f. accessors right after optimize(): r.flux, r.reduced_cost, met.shadow_price == the Solution's entries   [accessor-*];
+    on a problem without optimum they return a number or raise OptimizationError, no other exception class [accessor-raise-class]
  g. optimize(objective_sense in {None, maximize, minimize}, raise_error in {False, True}): verdict/value against the
     exact problem in that direction, and model.objective_direction afterwards == before, on every exit including the
     raising ones                       [optimize-direction-leak (raising exit), optimize-direction-not-restored (return)]
@@ -156,6 +157,11 @@ def check_model(model, solver):
     def bad(key, text):
         out.append((key, f"[{solver}] {text}"))
 
+    # the order of the model's lists is not the order of the solver's columns / rows: on every other model the lists are reversed
+    # (a public list operation) before anything is solved - values must be attached to identifiers, never to positions
+    if (len(model.reactions) + len(model.metabolites)) % 2 == 0:
+        model.reactions.reverse()
+        model.metabolites.reverse()
     if solver is not None:
         model.solver = solver
     lp, c, direction = oracle_lp.fba_lp(model)
@@ -211,6 +217,19 @@ def check_model(model, solver):
             bad("optimize-raise-spurious", f"optimize() raised {e!r} but the optimum is {float(val)!r}")
     except Exception as e:  # noqa
         bad("optimize-raise-class", f"optimize() raised {type(e).__name__}: {e}")
+    # accessors when no optimum exists: the documented outcomes are a number (statuses that still carry primal values: a warning is
+    # issued) or OptimizationError / its subclasses - never another exception class (Metabolite.shadow_price raised TypeError from
+    # `raise err.with_traceback()` for every status on which the status check raises; repaired in /repo)
+    if st != "optimal":
+        for what, objs in (("flux", model.reactions), ("reduced_cost", model.reactions), ("shadow_price", model.metabolites)):
+            for o in list(objs)[:2]:
+                try:
+                    getattr(o, what)
+                except OptimizationError:
+                    pass
+                except Exception as e:  # noqa
+                    bad("accessor-raise-class", f"{o.id}.{what} raised {type(e).__name__} ({e}) on an {st} problem, "
+                                                f"documented: OptimizationError")
     if sol is not None:
         if (st == "optimal") != (sol.status == "optimal"):
             bad("status-" + st, f"optimize() status {sol.status!r} but the exact problem is {st}")
